@@ -134,6 +134,47 @@ func genLockup(repo string) (string, []string, error) {
 		}
 		fmt.Fprintf(&b, "/-- %s -/\ndef %s : List String :=\n  %s\n\n", f.goName, f.lean, leanStrList(sk))
 	}
+	// --- genesis / params facts behind Model/LockupChain (restart, setParams): the function bodies as
+	//     normalised source text, and the initialisers of the constants DefaultParams depends on
+	g, err := loadFiles(
+		filepath.Join(repo, "x/lockup/keeper/genesis.go"),
+		filepath.Join(repo, "x/lockup/keeper/keeper.go"),
+		filepath.Join(repo, "x/lockup/keeper/store.go"),
+		filepath.Join(repo, "x/lockup/keeper/utils.go"),
+		filepath.Join(repo, "x/lockup/types/params.go"),
+		filepath.Join(repo, "x/lockup/types/constants.go"),
+		filepath.Join(repo, "x/common/types/constants.go"),
+	)
+	if err != nil {
+		return "", nil, err
+	}
+	bodies := []struct{ goName, lean string }{
+		{"Keeper.InitGenesis", "initGenesisBody"},
+		{"Keeper.ExportGenesis", "exportGenesisBody"},
+		{"Keeper.GetPeriodLocks", "getPeriodLocksBody"},
+		{"combineLocks", "combineLocksBody"},
+		{"DefaultParams", "defaultParamsBody"},
+		{"Keeper.SetParams", "setParamsBody"},
+		{"Keeper.GetParams", "getParamsBody"},
+	}
+	for _, f := range bodies {
+		fd, ok := g.funcs[f.goName]
+		if !ok || fd.Body == nil {
+			notes = append(notes, "function "+f.goName+" not found")
+			fmt.Fprintf(&b, "opaque %s : String\n\n", f.lean)
+			continue
+		}
+		fmt.Fprintf(&b, "/-- %s -/\ndef %s : String :=\n  %s\n\n", f.goName, f.lean, strconv.Quote(exprText(g.fset, fd.Body)))
+	}
+	for _, v := range []struct{ goName, lean string }{{"DefaultLockFee", "defaultLockFeeInit"}, {"DYM", "dymInit"}} {
+		e, ok := g.vars[v.goName]
+		if ie, isIota := e.(*iotaExpr); ok && isIota {
+			fmt.Fprintf(&b, "/-- initialiser of %s -/\ndef %s : String := %s\n\n", v.goName, v.lean, strconv.Quote(exprText(g.fset, ie.e)))
+		} else {
+			notes = append(notes, "initialiser of "+v.goName+" not found")
+			fmt.Fprintf(&b, "opaque %s : String\n\n", v.lean)
+		}
+	}
 	b.WriteString("end DymVerif.Gen.Lockup\n")
 	return b.String(), notes, nil
 }
